@@ -906,7 +906,20 @@ class Engine(
                                 self.convert_column_literal(start),
                                 self.convert_column_literal(stop_inclusive),
                             )
-                            if step != 1:
+                            if step != 1 and start < 0:
+                                # SQL's % yields a remainder with the sign of
+                                # its left operand, unlike Python's, so only
+                                # apply it to the (non-negative within the
+                                # BETWEEN bounds) offset from start.
+                                return sqlalchemy.sql.and_(
+                                    *[
+                                        target,
+                                        (sql_item - self.convert_column_literal(start))
+                                        % self.convert_column_literal(step)
+                                        == self.convert_column_literal(0),
+                                    ]
+                                )
+                            elif step != 1:
                                 return sqlalchemy.sql.and_(
                                     *[
                                         target,
